@@ -25,6 +25,23 @@ CLAIMED = {
         'design_ref': 'DESIGN.md section 5 C01, section 4',
         'technique': 'Coq proof (induction on the type universe + loop invariants + order theory) + model/implementation differential correspondence',
     },
+    'C02': {
+        'category': 'proof',
+        'text': ('Kernel-checked: for every well-formed type and value the bytes of the model of the code are those of an INDEPENDENT reference encoder written from the Borsh specification (Spec.spec_enc on the logical value: own positional '
+                 'little-endian, widths, NaN test, tag table, option-monad style; shares only the type universe, values and the order with the model), C02_conforms; the refused values are exactly those containing, in a written position, a NaN, '
+                 'a dynamically sized collection with >= 2^32 elements or a guarded collection of memory-zero-sized elements, always InvalidData, never a panic (C02_refuses, C02_refusal_kind, C02_total). A mutably borrowed RefCell is not a value of the '
+                 'model and is outside the theorem. ' + CORR + ' Oracle = implementation bytes vs the EXTRACTED reference encoder (not the model of the code); the 2^32 boundary is exercised through zero-sized slices of length up to 2^64-1.'),
+        'design_ref': 'DESIGN.md section 5 C02; NOTES-spec.md',
+        'technique': 'Coq proof (model encoder = independent specification encoder, by induction on types) + implementation vs extracted reference encoder',
+    },
+    'C03': {
+        'category': 'proof',
+        'text': ('Kernel-checked: bytes and refusal are functions of the logical value (C03_canonical, C03_canonical_refusal, C03_canonical_total); any permutation of a hash collection\'s iteration order gives the same bytes and the emitted keys ascend strictly '
+                 '(= bytes of the B-tree twin, accepted by the strict decoder); every split of a deque = the Vec of the joined content; all seven wrappers transparent; [T] = Vec<T> for non-zero-sized elements; the u8 bulk path = the element path for slices, sequences and arrays. '
+                 + CORR + ' >= 6 (median 12, up to 44) representations per logical value built on the implementation side: insertion/removal/reserve/shrink histories, the default hasher plus 3 seeds of a custom BuildHasher, every ring-buffer offset of a deque, each wrapper, repeated serialization.'),
+        'design_ref': 'DESIGN.md section 5 C03; NOTES-spec.md',
+        'technique': 'Coq proof (canonical form via the specification encoder + sorting theory) + multi-representation correspondence on the implementation',
+    },
     'C04': {
         'category': 'proof',
         'text': ('Kernel-checked: completeness (every encoding of a value is accepted and yields it, = C01); soundness in both modes (whatever is accepted is a well-typed value in logical form: ranges, non-zero, '
